@@ -288,6 +288,20 @@ var exprContexts = []struct{ name, pre, post string }{
 	{"foreach-iterable", "foreach q in ", " { x = q; }"},
 	{"infix-right", "x = 1 + ", ";"},
 	{"prefix-operand", "x = -", ";"},
+	{"infix-left", "x = ", " + 1;"},
+	{"compound-rhs", "x = 1; x += ", ";"},
+	{"ternary-condition", "x = ", " ? 1 : 2;"},
+	{"switch-value", "switch (", ") { case 1 { x = 1; } }"},
+	{"switch-value-default-only", "switch (", ") { default { x = 1; } }"},
+	{"switch-value-no-cases", "switch (", ") { }"},
+	{"case-second-expr", "switch (1) { case 1, ", " { x = 1; } }"},
+	{"while-condition", "while (", ") { x = 1; }"},
+	{"else-if-condition", "if (false) { x = 1; } else if (", ") { x = 2; }"},
+	{"index-base", "x = (", ")[0];"},
+	{"call-first-arg", "print(", ", 2);"},
+	{"nested-call", "x = len(string(", "));"},
+	{"range-end", "foreach q in 1..", " { x = q; }"},
+	{"assign-in-function", "function ff(p) { return p + ", "; }"},
 }
 
 var invalidExprFragments = []string{"\"unterminated", "1 +", "* 2", "(1 + 2", "[1, 2", "{\"a\": 1", "f(1, 2", "3 = 4", "a ? b ? 1 : 2 : 3", "#", "1 @ 2", "a & b", "~a",
@@ -333,6 +347,9 @@ func genInvalid(stream string, seed uint64, nTrunc int, depthMax int) []GenCase 
 	}
 	for _, f := range invalidExprFragments {
 		for _, ctx := range exprContexts {
+			if f == "" && ctx.name == "nested-call" {
+				continue // `string()` is a well-formed call
+			}
 			s := ctx.pre + f + ctx.post
 			add(s, true, "exprfrag×ctx:"+ctx.name)
 			for d := 1; d <= depthMax; d++ {
